@@ -271,10 +271,14 @@ _BIN = {}
 
 
 def crash_text(out):
+    """the first line of a Go crash report of the process ('' when it did not die of one: a test timeout, an
+    os.Exit of the embedded NATS server on a port conflict, a kill are infrastructure failures)"""
     for line in out.split('\n'):
+        if line.startswith('panic: test timed out'):
+            return ''
         if line.startswith(('panic:', 'fatal error:', 'unexpected fault address', 'SIGBUS', 'SIGSEGV')):
             return line[:300]
-    return 'process died: ' + out[:200]
+    return ''
 
 
 def harness_fault(out):
@@ -308,7 +312,7 @@ def test_binary(d):
     return out
 
 
-def execute(groups, d, tag, timeout=900):
+def execute(groups, d, tag, timeout=2400):
     """groups: {parts: [behaviours]}.  Runs them in up to PROCS parallel processes of the test binary (each with
     its own server, chunks balanced by estimated cost); returns {parts: path of the concatenated trace}"""
     import subprocess
@@ -379,8 +383,16 @@ def execute(groups, d, tag, timeout=900):
                          % (tid, last['a'], len(todo) - idx - 1 - len(rest)))
                 todo = rest
                 continue
-            if harness_fault(out):
+            if harness_fault(out) or 'test timed out' in out:
                 raise core.Inconclusive('harness failed rc=%s: %s' % (rc, out[-3000:]))
+            if not crash_text(out):
+                # not a crash of the code (e.g. the embedded NATS server lost its port to another process while
+                # the server was restarting): the behaviour that was running is executed again
+                core.log('x02: the process ended without a crash report in behaviour %d (rc=%s): executed again' % (tid, rc))
+                with open(trace, 'a') as fh:
+                    fh.write(''.join(x + '\n' for x in lines if json.loads(x)['t'] != tid))
+                todo = todo[idx:]
+                continue
             done_steps = sum(1 for x in lines if json.loads(x)['t'] == tid) - 1
             steps = todo[idx]['steps']
             crashed = steps[done_steps] if done_steps < len(steps) else {'a': 'Cleanup'}
@@ -493,6 +505,8 @@ def run(rep, tier, seed, replay):
         core.log('x02: %-28s %6.1f s' % (what, time.time() - t0))
     rng = random.Random(seed)
     quick = tier == 'quick'
+    global PROCS
+    PROCS = 4 if quick else 6
     if replay:
         behaviours = replay['replay']['behaviours']
         for i, b in enumerate(behaviours):
@@ -532,22 +546,22 @@ def run(rep, tier, seed, replay):
             steps.append(step_of(last))
         c = tlaval.state_var(g['nodes'][root], 'cfg')
         cover.append({'cfg': cfg_of(c), 'steps': steps, 'fam': 'cover'})
-    if quick and len(cover) > 320:
-        # seeded sample; every transition is replayed in the thorough tier
-        cover = rng.sample(cover, 320)
+    if len(cover) > (320 if quick else 5000):
+        # seeded sample (the whole 2-call cover fits the thorough tier's sample size many times over)
+        cover = rng.sample(cover, 320 if quick else 5000)
     rep.cov['transition_cover'] = {'edges': nedges, 'covered_by_paths': ncov, 'paths': len(paths), 'replayed': len(cover)}
     behaviours += cover
     lap('transition cover')
     # 4. situation-guided simulation
     pool = []
-    sims = core.tlc_simulate('MC_Lifecycle.tla', 'Sim_Lifecycle.cfg', 1500 if quick else 12000, 10, seed, timeout=1200)
+    sims = core.tlc_simulate('MC_Lifecycle.tla', 'Sim_Lifecycle.cfg', 1500 if quick else 8000, 10, seed, timeout=1200)
     for st in sims:
         if len(st) < 3:
             continue
         b = beh_of_states(st)
         b['fam'] = 'sim'
         pool.append((b, features(st)))
-    chosen, nfeat = select(pool, 1 if quick else 3, 100 if quick else 1500, rng)
+    chosen, nfeat = select(pool, 1 if quick else 3, 100 if quick else 1200, rng)
     rep.cov['simulation'] = {'pool': len(pool), 'features': nfeat, 'replayed': len(chosen)}
     behaviours += chosen
     lap('simulation + selection')
